@@ -105,6 +105,16 @@ Theorem decode_enum_order_free : forall vs vs' raw,
 Proof. exact Proofs.decode_enum_order_free. Qed.
 Print Assumptions decode_enum_order_free.
 
+(* ... and those hypotheses hold for every enum an edit history can build: unique indexes, unique
+   names, the value with index raw is found, any other raw gives the empty string *)
+Theorem decode_enum_reachable : forall ops raw, Forall op_in_range ops -> 0 <= raw < two64 ->
+  let vs := e_values (enum_run ops) in
+  NoDup (map snd vs) /\ NoDup (map fst vs) /\
+  (forall nm, In (nm, raw) vs -> decode_enum vs raw = Some nm) /\
+  (~ In raw (map snd vs) -> decode_enum vs raw = None).
+Proof. exact Proofs.decode_enum_reachable. Qed.
+Print Assumptions decode_enum_reachable.
+
 (* --- type ranges: exactly the n-bit two's complement / unsigned range (as binary64) *)
 Theorem range_spec : forall (signed : bool) (n : Z), 1 <= n <= 64 ->
   int_range signed n =
